@@ -241,6 +241,10 @@ def main(argv=None):
       'known_findings_observed': dict(agg['known_hits']),
       'known_finding_samples': agg['known_samples'],
       'brax_imported_from': origin,
+      'slowest_jobs': sorted(
+          [{'kind': j.get('kind'), 'idx': j['_idx'],
+            'wall_s': r.get('wall_s')} for j, r in results],
+          key=lambda d: -(d['wall_s'] or 0))[:5],
   }
   if getattr(mod, 'EXHAUSTIVE', False) and not failed and not not_run:
     cov['exhaustive'] = True
